@@ -14,6 +14,22 @@ CHECKS = {
   text="Exploration: every class in ALL_CLASSES and every normaliser class x semilocal mode is driven with random parameters, index assignments and inputs; the derivative routines are compared with 4th-order finite differences of the value routines (1e-7 of scale, measured floor 1e-9) and forward/reverse routines with an exact transpose test (1e-12). Held = no oracle failed on the executions produced.",
   note="Inputs kept inside each map's smooth domain; FD oracle resolution 1e-7 relative; trusted: numpy.",
   ref="5/C12"),
+
+ "C01": dict(
+  technique="runtime monitoring: Richardson finite-difference oracle of the returned XC energy vs <vmat, D> on the real integrators, hermiticity and electron-count monitors",
+  text="Exploration: synthetic models of every feature family (semilocal in 4 modes, NLDF i/j/ij/k at GGA/MGGA level, rho_mult expnt, SDMX variants, NLDF+SDMX) x RKS/UKS x plan/interpolator/evaluator/spin-mode/mixing/model-class options are driven through CiderNumInt.nr_rks/nr_uks with random admissible non-converged density matrices; <vmat,D> is compared with the extrapolated central difference of the returned energy along dense and single-pair directions (1e-7 semilocal/SDMX, 1e-5 NLDF; self-error guard). Held = no oracle failed on the executions produced.",
+  note="PSD density matrices only; resolution of the FD oracle; pyscf, libxc (pyscf's copy), OpenBLAS trusted; C libs rebuilt with gcc -O2 from the working tree.",
+  ref="5/C01"),
+ "C07": dict(
+  technique="runtime monitoring: differential execution of restricted vs unrestricted paths, spin-label swap and separability relations at integrator, model and layer level",
+  text="Exploration: for every feature family and spin mode the same synthetic model is evaluated through nr_rks(dm) and nr_uks((dm/2,dm/2)), through nr_uks((a,b)) and nr_uks((b,a)) (incl. fully polarised densities), and for SEP models against (E[2a]+E[2b])/2; MappedXC with nspin 1 vs duplicated channels; SemilocalPlan / exponent / baseline nspin branches pointwise. Tolerance 1e-8 x scale end to end (floor 5e-10), 1e-10 model level.",
+  note="The potential of an exactly empty spin channel of POL-mode NLDF models is ill-conditioned (measured) and only required to be finite; pyscf trusted.",
+  ref="5/C07"),
+ "C09": dict(
+  technique="runtime monitoring: recorded call histories on one integrator checked against a fresh-object reference model; digests of caller-owned arrays",
+  text="Exploration: histories of 5-9 operations (rks/uks, single/batched, repeated, other molecule or geometry, tiny max_memory) on ONE CiderNumInt per feature family are compared step by step with fresh-object single calls (1e-9 x scale; observed floor 1e-15); caller-owned density matrices, feature arrays and the arrays given to the pointwise helpers are digested before/after; evaluator chunking around 2000 samples.",
+  note="Bitwise equality not demanded; reference = same code on fresh objects (so a defect common to both is invisible here, C01 covers it).",
+  ref="5/C09"),
 }
 
 NOT_YET = "check not implemented yet (framework under construction)"
